@@ -1,0 +1,36 @@
+//go:build verif
+
+/*
+Copyright The ORAS Authors.
+Licensed under the Apache License, Version 2.0 (the "License");
+you may not use this file except in compliance with the License.
+You may obtain a copy of the License at
+
+http://www.apache.org/licenses/LICENSE-2.0
+
+Unless required by applicable law or agreed to in writing, software
+distributed under the License is distributed on an "AS IS" BASIS,
+WITHOUT WARRANTIES OR CONDITIONS OF ANY KIND, either express or implied.
+See the License for the specific language governing permissions and
+limitations under the License.
+*/
+
+package oras
+
+import (
+	"context"
+
+	ocispec "github.com/opencontainers/image-spec/specs-go/v1"
+	"golang.org/x/sync/semaphore"
+	"oras.land/oras-go/v2/content"
+)
+
+// This file only re-exports an unexported function for the verification
+// harness (property C04).  It is compiled only with the build tag "verif".
+
+// VerifCopyGraphWithLimiter re-exports copyGraph with a caller-supplied
+// concurrency limiter (proxy and tracker are created by copyGraph, as for
+// CopyGraph), so that the harness can read the limiter's free permits.
+func VerifCopyGraphWithLimiter(ctx context.Context, src content.ReadOnlyStorage, dst content.Storage, root ocispec.Descriptor, limiter *semaphore.Weighted, opts CopyGraphOptions) error {
+	return copyGraph(ctx, src, dst, root, nil, limiter, nil, opts)
+}
